@@ -144,10 +144,24 @@ func c19Family(repo string, cfg famCfg) (*C19Family, error) {
 			return nil, fmt.Errorf("%s: constant %s = %#x does not fit the %d-bit type %s", c.Pos, c.Ident, c.Value, fam.Bits, cfg.goType)
 		}
 	}
+	// functions the syntactic readers refuse and that are translated by evaluation instead (c19_eval.go)
+	var evalReqs []evalReq
+	var synErrs []string
 	switch cfg.shape {
 	case "seq", "fields":
 		if err := c19SeqDecomp(p, f, cfg, fam); err != nil {
-			return nil, err
+			fd, _, merr := p.method(f, cfg.goType, cfg.decomp)
+			if merr != nil || fam.Bits > 16 || c19DecompSignature(p, fd, cfg) != nil {
+				return nil, err
+			}
+			fam.Rows, fam.EmptyMode, fam.EmptyLit, fam.Sep = nil, "", "", ""
+			kind := "string"
+			if cfg.shape == "fields" {
+				kind = "names"
+			}
+			evalReqs = append(evalReqs, evalReq{ID: "decomp", Kind: kind, Type: cfg.goType, Method: cfg.decomp})
+			synErrs = append(synErrs, err.Error())
+			p.claimed[fd] = "decomposition (evaluated)"
 		}
 	case "mapsort":
 		if err := c19MapSortDecomp(p, f, cfg, fam); err != nil {
@@ -172,28 +186,125 @@ func c19Family(repo string, cfg famCfg) (*C19Family, error) {
 		if fd.Type.Params.NumFields() != 0 || fd.Type.Results.NumFields() != 1 || p.src(fd.Type.Results.List[0].Type) != "bool" {
 			continue
 		}
-		if len(fd.Recv.List[0].Names) != 1 {
-			return nil, p.errf(fd, "predicate %s has no receiver name", fd.Name.Name)
-		}
-		recv := fd.Recv.List[0].Names[0].Name
-		if len(fd.Body.List) != 1 {
-			return nil, p.errf(fd, "predicate %s: body is not a single return statement", fd.Name.Name)
-		}
-		rs, ok := fd.Body.List[0].(*ast.ReturnStmt)
-		if !ok || len(rs.Results) != 1 {
-			return nil, p.errf(fd, "predicate %s: body is not `return <test>`", fd.Name.Name)
-		}
-		t, err := p.parseTest(rs.Results[0], recv)
+		t, err := c19PredSyntactic(p, fd)
 		if err != nil {
-			return nil, fmt.Errorf("predicate %s: %w", fd.Name.Name, err)
+			// an exported predicate of an 8/16-bit word, value receiver: translated by evaluation
+			_, ptr := fd.Recv.List[0].Type.(*ast.StarExpr)
+			if fam.Bits > 16 || ptr || !fd.Name.IsExported() {
+				return nil, err
+			}
+			evalReqs = append(evalReqs, evalReq{ID: "pred:" + fd.Name.Name, Kind: "bool", Type: cfg.goType, Method: fd.Name.Name})
+			synErrs = append(synErrs, err.Error())
+			p.claimed[fd] = "predicate (evaluated)"
+		} else {
+			p.claimed[fd] = "predicate"
 		}
 		fam.Preds = append(fam.Preds, C19Pred{Func: fd.Name.Name, Test: t, Pos: p.pos(fd)})
-		p.claimed[fd] = "predicate"
+	}
+	if len(evalReqs) > 0 {
+		if err := c19FamilyByEvaluation(p, f, repo, cfg, fam, evalReqs); err != nil {
+			return nil, fmt.Errorf("%s\n  no shape the syntactic reader knows:\n    %s", err, strings.Join(synErrs, "\n    "))
+		}
 	}
 	if err := p.leftovers([]string{cfg.file}, cfg.ignore, true); err != nil {
 		return nil, err
 	}
 	return fam, nil
+}
+
+// c19PredSyntactic reads `func (f T) Name() bool { return f&M ==/!= R }`
+func c19PredSyntactic(p *c19pkg, fd *ast.FuncDecl) (C19Test, error) {
+	if len(fd.Recv.List[0].Names) != 1 {
+		return C19Test{}, p.errf(fd, "predicate %s has no receiver name", fd.Name.Name)
+	}
+	recv := fd.Recv.List[0].Names[0].Name
+	if len(fd.Body.List) != 1 {
+		return C19Test{}, p.errf(fd, "predicate %s: body is not a single return statement", fd.Name.Name)
+	}
+	rs, ok := fd.Body.List[0].(*ast.ReturnStmt)
+	if !ok || len(rs.Results) != 1 {
+		return C19Test{}, p.errf(fd, "predicate %s: body is not `return <test>`", fd.Name.Name)
+	}
+	t, err := p.parseTest(rs.Results[0], recv)
+	if err != nil {
+		return C19Test{}, fmt.Errorf("predicate %s: %w", fd.Name.Name, err)
+	}
+	return t, nil
+}
+
+// c19DecompSignature: String() string for a `seq` family, FromBytes(value byte) for a `fields` family
+func c19DecompSignature(p *c19pkg, fd *ast.FuncDecl, cfg famCfg) error {
+	if cfg.shape == "fields" {
+		if fd.Type.Params.NumFields() != 1 || fd.Type.Results.NumFields() != 0 || p.src(fd.Type.Params.List[0].Type) != "byte" {
+			return p.errf(fd, "%s: expected one byte parameter and no result", cfg.decomp)
+		}
+		return nil
+	}
+	if fd.Type.Params.NumFields() != 0 || fd.Type.Results.NumFields() != 1 || p.src(fd.Type.Results.List[0].Type) != "string" {
+		return p.errf(fd, "%s: expected signature () string", cfg.decomp)
+	}
+	if _, ptr := fd.Recv.List[0].Type.(*ast.StarExpr); ptr {
+		return p.errf(fd, "%s: pointer receiver", cfg.decomp)
+	}
+	return nil
+}
+
+// c19FamilyByEvaluation translates the functions of a small-word family that the syntactic readers
+// refused by running them on the whole domain (c19_eval.go).  Unexported functions and variables of the
+// file are then helpers of the evaluated methods: they have no behaviour of their own for this property
+// beyond what the exported methods that reach them answered on every word, and are accepted; an
+// EXPORTED function no recogniser reads is still an error (a new naming function must not go unnoticed).
+func c19FamilyByEvaluation(p *c19pkg, f *ast.File, repo string, cfg famCfg, fam *C19Family, reqs []evalReq) error {
+	ans, err := c19Evaluate(repo, cfg.dir, fam.Bits, reqs)
+	if err != nil {
+		return err
+	}
+	for _, r := range reqs {
+		a := ans[r.ID]
+		what := fmt.Sprintf("%s.%s (%s)", cfg.goType, r.Method, fam.File)
+		switch {
+		case r.ID == "decomp":
+			rows, mode, lit, sep, err := c19SynthDecomp(fam.Bits, a.Strings, a.Names, r.Kind == "names", what)
+			if err != nil {
+				return err
+			}
+			fam.Rows, fam.EmptyMode, fam.EmptyLit, fam.Sep = rows, mode, lit, sep
+		default:
+			t, err := c19SynthPred(fam.Bits, a.Bools, what)
+			if err != nil {
+				return err
+			}
+			for i := range fam.Preds {
+				if fam.Preds[i].Func == r.Method {
+					fam.Preds[i].Test = t
+				}
+			}
+		}
+	}
+	for _, d := range f.Decls {
+		switch x := d.(type) {
+		case *ast.FuncDecl:
+			if _, done := p.claimed[x]; !done && !x.Name.IsExported() {
+				p.claimed[x] = "helper of an evaluated method"
+			}
+		case *ast.GenDecl:
+			if x.Tok != token.VAR {
+				continue
+			}
+			for _, s := range x.Specs {
+				unexported := true
+				for _, id := range s.(*ast.ValueSpec).Names {
+					if id.IsExported() {
+						unexported = false
+					}
+				}
+				if _, done := p.claimed[s]; !done && unexported {
+					p.claimed[s] = "helper of an evaluated method"
+				}
+			}
+		}
+	}
+	return nil
 }
 
 // appendStmt recognises `L = append(L, X)` and returns (L, X)
@@ -406,6 +517,32 @@ func (p *c19pkg) rangeOverMap(st ast.Stmt, mapVar, subject, list string, wantVal
 	return nil
 }
 
+// rangeOverGetFlags recognises, for X the slice GetFlags() returned,
+//
+//	for I, K := range X { L[I] = MAP[K] }      (L made with len(X): sized == X)
+//	for _, K := range X { L = append(L, MAP[K]) }
+func (p *c19pkg) rangeOverGetFlags(rs *ast.RangeStmt, mapVar, list, sized string) error {
+	if rs.Tok != token.DEFINE || rs.Key == nil || rs.Value == nil || len(rs.Body.List) != 1 {
+		return p.errf(rs, "range over the GetFlags() result: expected `for i, k := range … { one statement }`")
+	}
+	idx, key := p.src(rs.Key), p.src(rs.Value)
+	item := mapVar + "[" + key + "]"
+	if sized != "" {
+		if sized != p.src(rs.X) || idx == "_" {
+			return p.errf(rs, "the list is sized by len(%s) but filled from `%s`", sized, p.src(rs.X))
+		}
+		if got, want := p.src(rs.Body.List[0]), list+"["+idx+"] = "+item; got != want {
+			return p.errf(rs, "range body `%s` is not `%s`", got, want)
+		}
+		return nil
+	}
+	l, x, ok := p.appendStmt(rs.Body.List[0])
+	if !ok || l != list || p.src(x) != item {
+		return p.errf(rs, "range body is not `%s = append(%s, %s)`", list, list, item)
+	}
+	return nil
+}
+
 func c19MapSortDecomp(p *c19pkg, f *ast.File, cfg famCfg, fam *C19Family) error {
 	ents, err := p.readMapLiteral(f, cfg.mapVar, cfg.goType, "string", "flag name map of "+cfg.id)
 	if err != nil {
@@ -429,16 +566,63 @@ func c19MapSortDecomp(p *c19pkg, f *ast.File, cfg famCfg, fam *C19Family) error 
 		return p.errf(fd, "String: expected signature () string")
 	}
 	b := fd.Body.List
+	// Normalisation "names through GetFlags" (DESIGN.md §7).  Canonical form: the names of the map entries
+	// whose key has a bit in common with the word, sorted, joined.  Accepted sources of that list:
+	//   (a) for K, V := range MAP { if u&K != 0 { L = append(L, V) } }
+	//   (b) [X := u.GetFlags()]  for I|_, K := range X|u.GetFlags() { L[I] = MAP[K]  |  L = append(L, MAP[K]) }
+	// (b) means the same as (a): GetFlags — which must itself have the canonical shape read below —
+	// returns exactly the keys K of MAP with u&K != 0, each once (map keys are distinct), so MAP[K] over
+	// them is the multiset of names (a) collects, and sort.Strings makes the order immaterial.  L may
+	// start as `[]string{}`, `var L []string`, `make([]string, 0[, n])` (append form) or, for the indexed
+	// form only, `make([]string, len(X))` with X the ranged slice: then every element is assigned exactly
+	// once.  Anything else between these statements is refused.
+	viaGetFlags := ""
+	if len(b) > 0 {
+		if as, ok := b[0].(*ast.AssignStmt); ok && as.Tok == token.DEFINE && len(as.Lhs) == 1 && len(as.Rhs) == 1 && p.src(as.Rhs[0]) == recv+".GetFlags()" {
+			viaGetFlags = p.src(as.Lhs[0])
+			b = b[1:]
+		}
+	}
 	if len(b) != 4 {
-		return p.errf(fd, "String: expected 4 statements (list := []string{}; for range map; sort.Strings; return strings.Join), found %d", len(b))
+		return p.errf(fd, "String: expected 4 statements (list := []string{}; for range map; sort.Strings; return strings.Join), found %d", len(fd.Body.List))
 	}
-	as, ok := b[0].(*ast.AssignStmt)
-	if !ok || as.Tok != token.DEFINE || len(as.Lhs) != 1 || p.src(as.Rhs[0]) != "[]string{}" {
-		return p.errf(b[0], "String: first statement is not `list := []string{}`")
+	list, sized := "", ""
+	switch x := b[0].(type) {
+	case *ast.AssignStmt:
+		if x.Tok == token.DEFINE && len(x.Lhs) == 1 && len(x.Rhs) == 1 {
+			rhs := p.src(x.Rhs[0])
+			if rhs == "[]string{}" {
+				list = p.src(x.Lhs[0])
+			} else if call, ok := x.Rhs[0].(*ast.CallExpr); ok && p.src(call.Fun) == "make" && len(call.Args) >= 2 && len(call.Args) <= 3 && p.src(call.Args[0]) == "[]string" {
+				if p.src(call.Args[1]) == "0" {
+					list = p.src(x.Lhs[0])
+				} else if len(call.Args) == 2 && strings.HasPrefix(p.src(call.Args[1]), "len(") {
+					list, sized = p.src(x.Lhs[0]), strings.TrimSuffix(strings.TrimPrefix(p.src(call.Args[1]), "len("), ")")
+				}
+			}
+		}
+	case *ast.DeclStmt:
+		if g, ok := x.Decl.(*ast.GenDecl); ok && g.Tok == token.VAR && len(g.Specs) == 1 {
+			vs := g.Specs[0].(*ast.ValueSpec)
+			if len(vs.Names) == 1 && len(vs.Values) == 0 && p.src(vs.Type) == "[]string" {
+				list = vs.Names[0].Name
+			}
+		}
 	}
-	list := p.src(as.Lhs[0])
-	if err := p.rangeOverMap(b[1], cfg.mapVar, recv, list, true); err != nil {
-		return err
+	if list == "" {
+		return p.errf(b[0], "String: `%s` does not start an empty []string (or one sized by the slice it is filled from)", p.src(b[0]))
+	}
+	if rs, ok := b[1].(*ast.RangeStmt); ok && (p.src(rs.X) == recv+".GetFlags()" || viaGetFlags != "" && p.src(rs.X) == viaGetFlags) {
+		if err := p.rangeOverGetFlags(rs, cfg.mapVar, list, sized); err != nil {
+			return err
+		}
+	} else {
+		if viaGetFlags != "" || sized != "" {
+			return p.errf(b[1], "String: `%s` is not a range over the GetFlags() result", firstLine(p.src(b[1])))
+		}
+		if err := p.rangeOverMap(b[1], cfg.mapVar, recv, list, true); err != nil {
+			return err
+		}
 	}
 	if p.src(b[2]) != "sort.Strings("+list+")" {
 		return p.errf(b[2], "String: `%s` is not sort.Strings(%s)", p.src(b[2]), list)
@@ -462,7 +646,7 @@ func c19MapSortDecomp(p *c19pkg, f *ast.File, cfg famCfg, fam *C19Family) error 
 	if len(g) != 4 {
 		return p.errf(gd, "GetFlags: expected 4 statements, found %d", len(g))
 	}
-	as, ok = g[0].(*ast.AssignStmt)
+	as, ok := g[0].(*ast.AssignStmt)
 	if !ok || as.Tok != token.DEFINE || len(as.Lhs) != 1 || p.src(as.Rhs[0]) != "[]"+cfg.goType+"{}" {
 		return p.errf(g[0], "GetFlags: first statement is not `flags := []%s{}`", cfg.goType)
 	}
